@@ -142,4 +142,71 @@ theorem hit_no_contact (cfg : Cfg) (t0 : Int) (req : Req) (e : Entry) (key : Str
         · rw [revalidate_contacts _ _ _ _ _ _ _ _ _ _ _ _ h] at hc; cases hc
 
 
+theorem ncu_eq (h : Header) : Spec.noCacheUnqualified modelReader h = (parseCC h).noCacheUnqualified := by
+  unfold Spec.noCacheUnqualified modelReader Directives.noCacheUnqualified Directives.respNoCache
+  simp only []
+  cases hl : alookup (str% "no-cache") (parseCC h) with
+  | none => simp
+  | some v =>
+    simp only [Option.map_some]
+    by_cases hv : v.isEmpty = true
+    · have : v = [] := by simpa using hv
+      subst this
+      simp [parseQuotedString_nil]
+    · simp only [hv, Bool.false_eq_true, ↓reduceIte]
+      by_cases ha : (parseQuotedString v).isEmpty = true <;> simp [ha]
+
+/-- with must-revalidate the calculator's "not stale" means fresh by the RFC definitions:
+    max-stale is not applied -/
+theorem fresh_sound_must_revalidate (g : Glue) (now : Int) (e : Entry) (reqCC : Directives)
+    (hs : e.resp.status ≠ 304) (hT : TimesOK e)
+    (hmr : (parseCC e.resp.header).mustRevalidate = true)
+    (h : (calculateFreshness g now e reqCC (parseCC e.resp.header)).isStale = false) :
+    Spec.isFresh modelReader g.parseTime (Spec.storedOfEntry e) now = true := by
+  unfold calculateFreshness at h
+  split at h
+  · simp at h
+  · split at h
+    · simp at h
+    · simp only [] at h
+      have hrl := requestLifetime_le (responseLifetime g e (parseCC e.resp.header)) reqCC
+      generalize requestLifetime (responseLifetime g e (parseCC e.resp.header)) reqCC = life at h hrl
+      unfold staleAfterMaxStale at h
+      simp only [hmr, Bool.not_true, Bool.and_false, Bool.false_and, Bool.false_eq_true, ↓reduceIte,
+        decide_eq_false_iff_not] at h
+      cases hd : Spec.httpTime g.parseTime e.resp.header sDate with
+      | none =>
+        exfalso
+        have ha := age_max_of_no_date g now e hT hd
+        have hb := responseLifetime_bounds g e (parseCC e.resp.header)
+        omega
+      | some d =>
+        have hle := life_le g e hs d hd
+        unfold Spec.isFresh
+        simp only [decide_eq_true_eq]
+        rw [← age_eq g now e hT]; omega
+
+/-- the model's "must validate" is false only when the RFC-level strict validation conditions
+    are all false -/
+theorem not_mv_not_strict (g : Glue) (now : Int) (e : Entry) (reqH : Header)
+    (hs : e.resp.status ≠ 304) (hT : TimesOK e)
+    (h : mustValidateOf (calculateFreshness g now e (parseCC reqH) (parseCC e.resp.header)) (parseCC reqH) (parseCC e.resp.header) = false) :
+    Spec.strictValidate modelReader g.parseTime reqH (Spec.storedOfEntry e) now = false := by
+  unfold mustValidateOf at h
+  simp only [Bool.or_eq_false_iff, Bool.and_eq_false_iff] at h
+  obtain ⟨⟨hnc, hsm⟩, hncu⟩ := h
+  unfold Spec.strictValidate
+  simp only [Bool.or_eq_false_iff, Bool.and_eq_false_iff, Bool.not_eq_false']
+  refine ⟨⟨?_, ?_⟩, ?_⟩
+  · rw [show (Spec.storedOfEntry e).header = e.resp.header from rfl, ncu_eq]; exact hncu
+  · rw [show (Spec.storedOfEntry e).header = e.resp.header from rfl, has_eq]
+    cases hsm with
+    | inl hf =>
+      by_cases hmr : (parseCC e.resp.header).mustRevalidate = true
+      · left; exact fresh_sound_must_revalidate g now e (parseCC reqH) hs hT hmr hf
+      · right; simpa [Directives.mustRevalidate] using hmr
+    | inr hmr => right; simpa [Directives.mustRevalidate] using hmr
+  · rw [has_eq]; simpa [Directives.noCache] using hnc
+
+
 end Httpcache
